@@ -182,6 +182,12 @@ impl LZ13CompressionFormat {
     }
 
     pub fn compress(&self, bytes: &[u8]) -> Result<Vec<u8>> {
+        // The header stores the input length in 24 bits.
+        if bytes.len() > 0xFFFFFF {
+            return Err(CompressionError::InvalidInput(
+                "LZ13 input must be shorter than 16 MiB".to_string(),
+            ));
+        }
         // First, create the header.
         let mut result: Vec<u8> = Vec::new();
         let length = bytes.len();
